@@ -76,6 +76,11 @@ func handleDigestAuthFunc(username, password string) ResponseMiddleware {
 		resp.body = nil
 		resp.result = nil
 		resp.error = nil
+		// the 401 response is replaced: release its body, otherwise its connection and the
+		// goroutines serving it stay around when the body was not auto-read (download, manual read)
+		if resp.Response != nil && resp.Response.Body != nil {
+			resp.Response.Body.Close()
+		}
 		resp.Response, err = client.GetTransport().RoundTrip(&req)
 		if err != nil {
 			return err
